@@ -5,6 +5,7 @@ import (
 	"runtime"
 	"runtime/debug"
 	"time"
+	"unsafe"
 
 	art "github.com/Clement-Jean/go-art"
 )
@@ -73,7 +74,8 @@ func ReleaseJobs() []string {
 	for _, mk := range relTrees() {
 		out = append(out, "release/"+mk().name)
 	}
-	return append(out, "bulk/unsigned[uint64]", "bulk/alpha[string]", "bulk/collation[string]")
+	out = append(out, "bulk/unsigned[uint64]", "bulk/alpha[string]", "bulk/collation[string]")
+	return append(out, "spread/alpha[string]", "spread/collation[string]", "spread/collation[[]byte]", "spread/compound[u64,str]")
 }
 
 func exploreRelease(job, tier string, res *Result) {
@@ -285,8 +287,130 @@ func ExploreRelease(job, tier string, deadline time.Duration) *Result {
 	defer func() { res.Stats.WallS = time.Since(start).Seconds() }()
 	if len(job) > 5 && job[:5] == "bulk/" {
 		exploreBulk(job, tier, res)
+	} else if len(job) > 7 && job[:7] == "spread/" {
+		exploreSpread(job, tier, res)
 	} else {
 		exploreRelease(job, tier, res)
 	}
 	return res
+}
+
+// spread/<kind>: a bounded key set whose keys are (re)inserted at widely spaced moments of a long history, with
+// read-only queries in between, and whose key strings are cut out of large short-lived pages (fields of a scanned
+// input). What the tree holds at the end is what it held after the build; the heap may not have grown, and the
+// build itself may keep only the keys, not the pages they came from.
+const (
+	spreadKeys = 1000
+	spreadPage = 64 << 10
+)
+
+func exploreSpread(job, tier string, res *Result) {
+	st := &res.Stats
+	type tr struct {
+		insert func(k string)
+		delete func(k string) bool
+		search func(k string) bool
+		keep   any
+	}
+	var mk func() tr
+	switch job {
+	case "spread/alpha[string]":
+		mk = func() tr {
+			t := art.NewAlphaSortedTree[string, int]()
+			return tr{func(k string) { t.Insert(k, 1) }, func(k string) bool { return t.Delete(k) }, func(k string) bool { _, ok := t.Search(k); return ok }, t}
+		}
+	case "spread/collation[string]":
+		mk = func() tr {
+			t := art.NewCollationSortedTree[string, int]()
+			return tr{func(k string) { t.Insert(k, 1) }, func(k string) bool { return t.Delete(k) }, func(k string) bool { _, ok := t.Search(k); return ok }, t}
+		}
+	case "spread/collation[[]byte]":
+		mk = func() tr {
+			t := art.NewCollationSortedTree[[]byte, int]()
+			b := func(k string) []byte { return unsafe.Slice(unsafe.StringData(k), len(k)) } // a view into the page, like a scanner token
+			return tr{func(k string) { t.Insert(b(k), 1) }, func(k string) bool { return t.Delete(b(k)) }, func(k string) bool { _, ok := t.Search(b(k)); return ok }, t}
+		}
+	case "spread/compound[u64,str]":
+		mk = func() tr {
+			sc := Schema{Fields: []FieldType{FU64}, Str: true}
+			t := art.NewCompoundTree[Tuple, int](SchemaCodec{S: sc})
+			m := func(k string) Tuple { return Tuple{N: []Num{{T: FU64, U: 7}}, S: k} }
+			return tr{func(k string) { t.Insert(m(k), 1) }, func(k string) bool { return t.Delete(m(k)) }, func(k string) bool { _, ok := t.Search(m(k)); return ok }, t}
+		}
+	default:
+		res.HarnessErr = "no spread job " + job
+		return
+	}
+	// a key string that is a substring of a fresh page; the page itself is dropped by the caller
+	cut := func(i int) string {
+		page := make([]byte, spreadPage)
+		for j := range page {
+			page[j] = '.'
+		}
+		k := fmt.Sprintf("field-%06d", i*7919%1000000)
+		off := (i * 131) % (spreadPage - len(k))
+		copy(page[off:], k)
+		s := string(page) // one allocation of page size; the key is a view into it
+		return s[off : off+len(k)]
+	}
+	measure := func() (build, churn int64, ok bool) {
+		t := mk()
+		t.insert(cut(spreadKeys + 1))
+		t.delete(cut(spreadKeys + 1))
+		before := liveHeap()
+		for i := 0; i < spreadKeys; i++ {
+			t.insert(cut(i))
+		}
+		built := liveHeap()
+		for n := 0; n < spreadKeys; n++ {
+			i := n * 389 % spreadKeys
+			if !t.delete(cut(i)) {
+				return 0, 0, false // owned by C01
+			}
+			t.insert(cut(i))
+			for q := 1; q <= 30; q++ {
+				if !t.search(cut((i + q*37) % spreadKeys)) {
+					return 0, 0, false
+				}
+			}
+		}
+		after := liveHeap()
+		runtime.KeepAlive(t.keep)
+		return built - before, after - built, true
+	}
+	st.Evaluations += 2
+	st.Nontrivial += 2
+	build, churn, ok := measure()
+	if !ok {
+		return
+	}
+	// per key: the stored bytes, a leaf, its share of inner nodes (collation: a sort key as well); never a page
+	buildLimit := int64(spreadKeys*512 + relThreshold)
+	churnLimit := int64(relThreshold + spreadPage) // the collation codec legitimately remembers the last key it saw
+	report := func(what string, limit, got int64) {
+		b2, c2, _ := measure()
+		again := b2
+		if what[0] == 'c' {
+			again = c2
+		}
+		if again <= limit {
+			res.HarnessErr = fmt.Sprintf("heap measurement did not reproduce: %s: %d then %d bytes", what, got, again)
+			return
+		}
+		v := viol(job+": "+what, fmt.Sprintf("<= %d bytes", limit), fmt.Sprintf("%d bytes", got))
+		v.Property, v.Universe, v.Tier = "C17", job, tier
+		v.Tags = []string{"crash"}
+		res.Violations = append(res.Violations, v)
+		st.Exhaustive = false
+	}
+	if build > buildLimit {
+		report(fmt.Sprintf("build: live heap added by inserting %d keys of 12 bytes, each cut out of its own %d-byte page that the caller dropped right away", spreadKeys, spreadPage), buildLimit, build)
+		return
+	}
+	if churn > churnLimit {
+		report(fmt.Sprintf("churn: live heap growth while each of the %d keys was deleted and re-inserted once, 30 searches after each, content unchanged", spreadKeys), churnLimit, churn)
+		return
+	}
+	st.Extra = map[string]float64{"retained_bytes_after_build": float64(build), "growth_bytes_during_spread_churn": float64(churn)}
+	st.Samples = append(st.Samples, fmt.Sprintf("%s: %d keys cut out of %d-byte pages; each deleted and re-inserted once with 30 searches in between", job, spreadKeys, spreadPage))
 }
